@@ -5,18 +5,6 @@ From DV Require Import Common.Res Ext.Seq Ext.Model Orient.Model Orient.ProofsAr
 Import ListNotations.
 Local Open Scope nat_scope.
 
-(** all inputs have the shape of the first one and are well formed *)
-Definition uniform (ims : list img) (sh : list nat) : Prop :=
-  forall im, In im ims -> ishape im = sh /\ wf_img im.
-
-(** what the input loop of [NiftiWrapper.from_sequence] tests, input by input:
-    every input is oriented like the first one, and (spatial merge axis only) every consecutive pair of
-    translations is a non-zero step along the merge axis *)
-Definition mergeable (unitv : vec -> vec) (dim : nat) (ims : list img) (d : img) : Prop :=
-  (forall i, i < length ims -> orient_okb unitv dim (iaff (nth 0 ims d)) (iaff (nth i ims d)) = true) /\
-  (dim < 3 -> forall i, S i < length ims ->
-              bad_step unitv dim (iaff (nth i ims d)) (iaff (nth (S i) ims d)) = false).
-
 Lemma resolve_merge_dim_ok sh odim dim :
   resolve_merge_dim sh odim = Ok dim -> dim < 5 /\ (dim < length sh -> nth dim sh 0 = 1).
 Proof.
